@@ -115,6 +115,8 @@ Fixpoint collp (cls : bool) (q : cst) (s : list nat) : list nat :=
    One pass; the states are: outside (with: nothing to repeat here), after a backslash, inside a bracket expression, inside
    "[:" / "[." / "[=" up to its ":]" / ".]" / "=]", inside an interval up to its "\}". ---- *)
 Definition c_lbrace := 123.  Definition c_rbrace := 125.  Definition c_plus := 43.  Definition c_qm := 63.
+(* GNU's "{,n}" is "{0,n}": the lower bound is written for the engine *)
+Definition open_bound (s : list nat) : list nat := match s with x :: _ => if x =? 44 then [48] else [] | [] => [] end.
 Inductive pst := PT (start anchored : bool) | PE (start : bool) | PB (may_caret may_rb : bool) | PK (d : nat) (prev : bool) | PI (prev_bs : bool).
 Fixpoint pre (gb pq nl : bool) (q : pst) (s : list nat) : list nat :=
   match s with
@@ -131,7 +133,7 @@ Fixpoint pre (gb pq nl : bool) (q : pst) (s : list nat) : list nat :=
         if (c =? c_lp) || (c =? c_bar) then c_bs :: c :: pre gb pq nl (PT true false) s'
         else if c =? c_lbrace then
           if st then (if gb then [c] else [c_bs; c]) ++ pre gb pq nl (PT false false) s'
-          else c_bs :: c :: pre gb pq nl (PI false) s'
+          else c_bs :: c :: open_bound s' ++ pre gb pq nl (PI false) s'
         else if pq && negb st && (c =? c_plus) then [c_bs; c_lbrace; 49; 44; c_bs; c_rbrace] ++ pre gb pq nl (PT false false) s'
         else if pq && negb st && (c =? c_qm) then [c_bs; c_lbrace; 48; 44; 49; c_bs; c_rbrace] ++ pre gb pq nl (PT false false) s'
         else c_bs :: c :: pre gb pq nl (PT false false) s'
@@ -150,6 +152,31 @@ Fixpoint pre (gb pq nl : bool) (q : pst) (s : list nat) : list nat :=
     | PI prev => if prev && (c =? c_rbrace) then c :: pre gb pq nl (PT false false) s' else c :: pre gb pq nl (PI (c =? c_bs)) s'
     end
   end.
+(* posix-extended: the same for "{" outside bracket expressions, not quoted *)
+Inductive xst := XT | XE | XB (may_caret may_rb : bool) | XK (d : nat) (prev : bool).
+Fixpoint xopen (q : xst) (s : list nat) : list nat :=
+  match s with
+  | [] => []
+  | c :: s' =>
+    match q with
+    | XT => if c =? c_bs then c :: xopen XE s'
+            else if c =? c_lb then c :: xopen (XB true true) s'
+            else if c =? c_lbrace then c :: open_bound s' ++ xopen XT s'
+            else c :: xopen XT s'
+    | XE => c :: xopen XT s'
+    | XB mc mr =>
+        if mc && (c =? c_caret) then c :: xopen (XB false true) s'
+        else if mr && (c =? c_rb) then c :: xopen (XB false false) s'
+        else if c =? c_rb then c :: xopen XT s'
+        else if c =? c_lb then
+          match s' with
+          | d :: s'' => if (d =? c_colon) || (d =? c_dot) || (d =? c_eq) then c :: d :: xopen (XK d false) s'' else c :: xopen (XB false false) s'
+          | [] => [c]
+          end
+        else c :: xopen (XB false false) s'
+    | XK d prev => if prev && (c =? c_rb) then c :: xopen (XB false false) s' else c :: xopen (XK d (c =? d)) s'
+    end
+  end.
 Definition spell (gb pq nl : bool) (pattern : list nat) : list nat :=
   if gb || pq then pre gb pq nl (PT true false) pattern else pattern.
 
@@ -157,9 +184,10 @@ Definition spell (gb pq nl : bool) (pattern : list nat) : list nat :=
    gb: grep's brace; pq: posix-basic's "\+" and "\?" *)
 (* what is compiled first (to report errors against the pattern as given) and what inside_group starts from *)
 (* (the operators first: they are found by reading the bracket expressions as they were written) *)
-Definition spelled (cls nl gb pq : bool) (pattern : list nat) : list nat := collp cls CT (spell gb pq nl pattern).
+Definition spelled (ext cls nl gb pq : bool) (pattern : list nat) : list nat :=
+  collp cls CT (if ext then xopen XT pattern else spell gb pq nl pattern).
 Definition inside_group (ext cls nl gb pq : bool) (pattern : list nat) : list nat :=
-  wrap ext cls nl (WT false) 0 (spelled cls nl gb pq pattern).
+  wrap ext cls nl (WT false) 0 (spelled ext cls nl gb pq pattern).
 
 (* ---- how the text is read back: where groups open and close (POSIX extended).  A backslash takes the next character with it;
    a bracket expression runs from "[" (then "^" and "]" as members) to the next "]", a "[:" inside it to the next "]".
